@@ -1,6 +1,6 @@
 """C10 — The regex engine is total."""
 
-from ..rules import frontprogress, implicit, limits, regexrules
+from ..rules import frontprogress, implicit, limits, regexrules, textparse
 
 
 def run(ctx, rep):
@@ -10,4 +10,5 @@ def run(ctx, rep):
     regexrules.rule_zero_width_guard(ctx, rep, "C10-R4")
     frontprogress.rule_frontend_progress(ctx, rep, "C10-R5", modules=("regex.parser",), floor=12)
     implicit.rule_ord_of_case_mapping(ctx, rep, "C10-R6", modules=("regex",), floor=4)
+    textparse.rule_ascii_digit_scanners(ctx, rep, "C10-R7", modules=("regex.parser",))
     rep.undecided += ["wall-clock time per match"]
